@@ -5,6 +5,18 @@ ROOT = os.path.dirname(os.path.dirname(os.path.abspath(__file__)))
 ids = [json.loads(l)["id"] for l in open(os.path.join(ROOT, "properties.jsonl"))]
 
 CLAIMED = {
+ "C17": dict(
+   text="Lean 4 theorems over the transition system Model/AsyncRefresh.lean (N coroutines, lock, token version, counters; scheduler picks any enabled step, the token "
+        "endpoint's answers are the environment's choice, lock handed to any waiter), by an 11-clause invariant preserved by every step (step_preserves_inv) and induction "
+        "over the schedule — for EVERY N, EVERY schedule, EVERY endpoint behaviour: mutual_exclusion, at_most_one_successful_refresh (and callbacks ≤ 1), "
+        "callback_exactly_once_per_refresh (at any point where nobody is in the refresh section), no_protected_request_with_expired_token, failed_refresh_sends_nothing, "
+        "refresh_requests_accounted, exactly_one_refresh_when_endpoint_succeeds (≤ 1 refresh request ever; once any protected request went out: exactly one, it succeeded, "
+        "the request carried version 1). Correspondence: the real AsyncOAuth2Client on an asyncio loop with gating transport and callback; ALL schedules for N ≤ 4 (5 thorough) "
+        "× grants × callback × outcome sequences; each observed event trace must be an enabled run of the model with equal final counters and per-caller results. Trace oracle from the statement.",
+   note="Trusted: Lean kernel; coroutine-level atomicity of asyncio between awaits (the granularity of model actions); harness scheduler (asyncworld.py). Cannot exhibit: thread "
+        "pre-emption, real network timing, lock hand-off orders other than anyio's FIFO on the real side (the model covers them). Hypothesis FreshTokenLive: the refreshed token is not itself expired.",
+   technique="Lean 4 proof (inductive invariant of a transition system, all N and all schedules) + trace-inclusion correspondence over exhaustively enumerated real schedules + trace oracle",
+   design="§4 C17"),
  "C14": dict(
    text="Lean 4 theorems over Model/ClientState.lean (get/set/clear_state_data of FrameworkIntegration and StarletteIntegration, _clear_session_state, the authorize_redirect / "
         "authorize_access_token pairs; any number of sessions and providers): callback_proceeds_implies_begun_in_same_session_partial (for EVERY history of begin / callback / "
